@@ -200,7 +200,7 @@ func VerifC20Points(args []string) int {
 		return 2
 	}
 	_, c20InitPer = c20PkgHash()
-	kinds := []int{0, 1, 2}
+	kinds := []int{0, 1, 2, 3} // 3: a pair on the system's randomness source (package state only)
 	if shard == 0 {
 		for _, k := range kinds {
 			p, a, fs := c20Invariance(seed, k)
